@@ -741,6 +741,17 @@ class ReqNames(SymObj):
         return NotImplemented
 
 
+def _reqnames_compare(self, I, op, other):
+    if isinstance(op, ast.LtE) and isinstance(other, (set, frozenset, OrderedSet)):
+        have = other.items if isinstance(other, OrderedSet) else other
+        missing = [v for n, v in self.h.reqkw.items() if n not in have] + [self.h.reqkw_other]
+        return z3.Not(z3.Or(*missing)) if missing else z3.BoolVal(True)
+    return NotImplemented
+
+
+ReqNames.py_compare = _reqnames_compare
+
+
 class BoolSet(SymObj):
     def __init__(self, nonempty):
         self.nonempty = nonempty
